@@ -75,13 +75,32 @@ def write_json(path, obj):
     os.replace(tmp, path)
 
 
-def run(cmd, cwd=None, timeout=None, env=None):
-    """Run a command, return (rc, combined output, wall seconds). rc = -9 on timeout."""
+def run(cmd, cwd=None, timeout=None, env=None, tee=None):
+    """Run a command, return (rc, combined output, wall seconds). rc = -9 on timeout.
+    With `tee`, the combined output is also streamed to that file while the command runs."""
     t0 = time.time()
-    try:
-        p = subprocess.run(cmd, cwd=cwd, env=env or env_offline(), stdout=subprocess.PIPE,
-                           stderr=subprocess.STDOUT, timeout=timeout)
-        return p.returncode, p.stdout.decode("utf-8", "replace"), time.time() - t0
-    except subprocess.TimeoutExpired as e:
-        out = e.stdout.decode("utf-8", "replace") if e.stdout else ""
-        return -9, out, time.time() - t0
+    if tee is None:
+        try:
+            p = subprocess.run(cmd, cwd=cwd, env=env or env_offline(), stdout=subprocess.PIPE,
+                               stderr=subprocess.STDOUT, timeout=timeout)
+            return p.returncode, p.stdout.decode("utf-8", "replace"), time.time() - t0
+        except subprocess.TimeoutExpired as e:
+            out = e.stdout.decode("utf-8", "replace") if e.stdout else ""
+            return -9, out, time.time() - t0
+    os.makedirs(os.path.dirname(tee), exist_ok=True)
+    with open(tee, "wb") as f:
+        p = subprocess.Popen(cmd, cwd=cwd, env=env or env_offline(), stdout=f, stderr=subprocess.STDOUT,
+                             start_new_session=True)
+        try:
+            rc = p.wait(timeout=timeout)
+        except subprocess.TimeoutExpired:
+            import signal
+            try:
+                os.killpg(p.pid, signal.SIGKILL)
+            except ProcessLookupError:
+                pass
+            p.wait()
+            rc = -9
+    with open(tee, "rb") as f:
+        out = f.read().decode("utf-8", "replace")
+    return rc, out, time.time() - t0
